@@ -60,6 +60,30 @@ Definition key_reqs (cfg : string) : list breq :=
     with_args cfg (f "init") no_args ++ with_args cfg (f "free") obj_or_null ++ with_args cfg (f "randomize_with_trng") no_args ++
     with_args cfg (f "randomize") no_args ++ with_args cfg (f "extract") no_args) ["128"; "160"].
 
+(* the incremental AEAD functions (audit 2, gap 7b): src/aead/ascon-aead-inc-{128,128a,80pq}.c on three state layouts, every object a
+   region of exactly its documented size (state 80 bytes, key 16 / 20, nonce and tag 16, AD and chunks exactly the length passed).
+     init    k, npub in {0 = NULL, 1 = a buffer}          reinit   additionally npub = 2: the object's own nonce field
+     start   adlen in {0 (NULL), 1, rate-1, rate, rate+1, 2 rate+3}
+     encrypt_block / decrypt_block   alias (out = in) x len (as adlen) x posn in {0, 1, rate-1}
+     encrypt_finalize / decrypt_finalize   posn 0 .. rate-1          free   an object / NULL
+   All of them are within contract (Model/BoundsDefs.in_contract knows no restriction for these names). *)
+Definition inc_lens (r : nat) : list nat := [0; 1; r - 1; r; r + 1; 2 * r + 3]%nat.
+Definition args1 (k : string) (v : list nat) : list (list (string * N) * bool) := map (fun a => ([(k, N.of_nat a)], true)) v.
+Definition args2 (k1 : string) (v1 : list nat) (k2 : string) (v2 : list nat) : list (list (string * N) * bool) :=
+  flat_map (fun a => map (fun b => ([(k1, N.of_nat a); (k2, N.of_nat b)], true)) v2) v1.
+Definition args3 (k1 : string) (v1 : list nat) (k2 : string) (v2 : list nat) (k3 : string) (v3 : list nat) : list (list (string * N) * bool) :=
+  flat_map (fun a => flat_map (fun b => map (fun c => ([(k1, N.of_nat a); (k2, N.of_nat b); (k3, N.of_nat c)], true)) v3) v2) v1.
+Definition inc_alg_reqs (cfg alg : string) (rate : nat) : list breq :=
+  let f op := cat [alg; "_aead_"; op] in
+  with_args cfg (f "init") (args2 "k" [0; 1]%nat "npub" [0; 1]%nat) ++ with_args cfg (f "reinit") (args2 "k" [0; 1]%nat "npub" [0; 1; 2]%nat) ++
+  with_args cfg (f "start") (args1 "adlen" (inc_lens rate)) ++
+  flat_map (fun op => with_args cfg (f op) (args3 "alias" [0; 1]%nat "len" (inc_lens rate) "posn" [0; 1; rate - 1]%nat)) ["encrypt_block"; "decrypt_block"] ++
+  flat_map (fun op => with_args cfg (f op) (args1 "posn" (seq 0 rate))) ["encrypt_finalize"; "decrypt_finalize"] ++
+  with_args cfg (f "free") obj_or_null.
+Definition inc_reqs (cfg : string) : list breq :=
+  inc_alg_reqs cfg "ascon128" 8 ++ inc_alg_reqs cfg "ascon128a" 16 ++ inc_alg_reqs cfg "ascon80pq" 8.
+Definition inc_required : list breq := flat_map (fun be => inc_reqs (cat ["aead-inc/"; be])) ["default"; "c32"; "directxor"].
+
 Definition bounds_required : list breq :=
   (* word toolkits: 64-bit C, 32-bit C, direct-XOR word file, x86-64 assembly; MAX_SHARES 2, 3, 4 *)
   flat_map (fun tag => flat_map (fun max => word_reqs (cat [tag; "/max"; d1 max]) max) maxes) ["word-c64"; "word-c32"; "word-direct"; "word-x86_64"] ++
@@ -70,7 +94,9 @@ Definition bounds_required : list breq :=
   (* masked states over the three unmasked layouts *)
   flat_map (fun be => flat_map (fun max => state_reqs (cat ["state-"; be; "/max"; d1 max]) max) maxes) ["c64"; "c32"; "directxor"] ++
   (* masked keys: KEY_SHARES k <= MAX_SHARES *)
-  flat_map (fun max => flat_map (fun k => key_reqs (cat ["key/key"; d1 k; "-max"; d1 max])) (shares_upto max)) maxes.
+  flat_map (fun max => flat_map (fun k => key_reqs (cat ["key/key"; d1 k; "-max"; d1 max])) (shares_upto max)) maxes ++
+  (* incremental AEAD functions, three state layouts *)
+  inc_required.
 
 (* ---- the check -------------------------------------------------------------------------------------------------- *)
 Fixpoint args_eqb (a b : list (string * N)) : bool :=
@@ -116,5 +142,9 @@ Definition bentry_listed (reqs : list breq) (e : bentry) : bool :=
   existsb (fun q => let '(cfg, fn, args, _) := q in
                     if String.eqb (be_config e) cfg then if String.eqb (be_function e) fn then args_eqb (be_args e) args else false else false) reqs.
 
-Example bounds_required_size : List.length bounds_required = 1489%nat.
+(* boolean membership in a requirement list (within-contract entries) *)
+Definition breq_in (cfg fn : string) (args : list (string * N)) (l : list breq) : bool :=
+  existsb (fun q => let '(c, f, a, v) := q in String.eqb c cfg && String.eqb f fn && args_eqb a args && v) l.
+
+Example bounds_required_size : List.length bounds_required = 2491%nat.
 Proof. vm_compute. reflexivity. Qed.
